@@ -139,3 +139,104 @@ func TestVerifRpcGuards(t *testing.T) {
 		})
 	}
 }
+
+// Requests do not influence each other: a quick call gets its own result while an earlier
+// call (possibly already timed out, its handler still running) is in progress, and two
+// concurrent calls both finish within their own deadline.
+func TestVerifRpcGuardsIndependence(t *testing.T) {
+	defer vrt.WriteReport()
+	logx.Disable()
+	bound := 1
+	if vrt.Thorough() {
+		bound = 2
+	}
+	for i, first := range []time.Duration{0, 50 * time.Millisecond, 150 * time.Millisecond, 400 * time.Millisecond} {
+		if !vrt.Shard(i + 30) {
+			continue
+		}
+		first := first
+		vrt.Explore(vrt.Options{Name: fmt.Sprintf("guards/rpc/independence/first-handler=%v", first), Bound: bound, AutoAdvance: true, Prune: true, Budget: vrt.FairBudget(2)}, func(r *vrt.Run) {
+			started := map[string]bool{}
+			var mu sync.Mutex
+			call := rpcChain(func(ctx context.Context, req interface{}) (interface{}, error) {
+				d := ctx.Value(ctxKey("sleep")).(time.Duration)
+				mu.Lock()
+				started[ctx.Value(ctxKey("name")).(string)] = true
+				mu.Unlock()
+				if d > 0 {
+					vrt.Sleep(d) // ignores ctx on purpose: a handler that overruns its deadline
+				}
+				return ctx.Value(ctxKey("name")), nil
+			})
+			mk := func(name string, d time.Duration) context.Context {
+				return context.WithValue(context.WithValue(context.Background(), ctxKey("name"), name), ctxKey("sleep"), d)
+			}
+			var wg sync.WaitGroup
+			res := map[string]string{}
+			do := func(name string, d time.Duration) {
+				defer wg.Done()
+				begin := vrt.Elapsed()
+				resp, err := call(mk(name, d))
+				mu.Lock()
+				res[name] = fmt.Sprintf("%v|%v after %v", resp, status.Code(err), vrt.Elapsed()-begin)
+				mu.Unlock()
+			}
+			wg.Add(2)
+			go do("A", first)
+			go func() {
+				vrt.Sleep(120 * time.Millisecond) // A has finished (0, 50 ms) or timed out (150, 400 ms) by now
+				do("B", 10*time.Millisecond)
+			}()
+			wg.Wait()
+			vrt.Obs()
+			r.Outcome("A=%s B=%s", res["A"], res["B"])
+			if !started["B"] || res["B"] != "B|OK after 10ms" {
+				r.Failf("second call (10 ms handler, 100 ms timeout) arriving 120 ms after a first call whose handler takes %v: got %s (handler started: %v), want its own result after 10ms", first, res["B"], started["B"])
+			}
+			wantA := "A|OK after " + first.String()
+			if first == 0 {
+				wantA = "A|OK after 0s"
+			}
+			if first > rpcTimeout {
+				wantA = "<nil>|DeadlineExceeded after 100ms"
+			}
+			if res["A"] != wantA {
+				r.Failf("first call: got %s, want %s", res["A"], wantA)
+			}
+		})
+	}
+	// two overlapping calls, both well within the deadline
+	if vrt.Shard(35) {
+		vrt.Explore(vrt.Options{Name: "guards/rpc/independence/two-concurrent-40ms", Bound: bound + 1, AutoAdvance: true, Prune: true, Budget: vrt.FairBudget(2)}, func(r *vrt.Run) {
+			call := rpcChain(func(ctx context.Context, req interface{}) (interface{}, error) {
+				vrt.Sleep(40 * time.Millisecond)
+				return "ok", nil
+			})
+			var wg sync.WaitGroup
+			var mu sync.Mutex
+			var out []string
+			for i := 0; i < 2; i++ {
+				wg.Add(1)
+				go func() {
+					defer wg.Done()
+					begin := vrt.Elapsed()
+					resp, err := call(context.Background())
+					mu.Lock()
+					out = append(out, fmt.Sprintf("%v|%v after %v", resp, status.Code(err), vrt.Elapsed()-begin))
+					mu.Unlock()
+				}()
+			}
+			wg.Wait()
+			vrt.Obs()
+			r.Outcome("%v", out)
+			for _, o := range out {
+				if o != "ok|OK after 40ms" {
+					r.Failf("two concurrent 40 ms calls under a 100 ms timeout: %v", out)
+					break
+				}
+			}
+		})
+	}
+}
+
+type ctxKey string
